@@ -49,10 +49,11 @@ type env struct {
 	obs    *observer.ObservedLogs
 	clock  *hx.FixedClock
 	G      *zap.Logger // for ReplaceGlobals
+	C      *zap.Logger // shared child with a namespaced context
 	sinks  []*rsink
 }
 
-var families = []string{"io", "tee", "sampler", "hooked", "increase", "lazy", "observer", "buffered"}
+var families = []string{"io", "tee", "sampler", "hooked", "increase", "lazy", "observer", "buffered", "console", "combine1"}
 
 func build(family string, warm int) *env {
 	e := &env{family: family, clock: hx.NewFixedClock()}
@@ -65,6 +66,10 @@ func build(family string, warm int) *env {
 	switch family {
 	case "io":
 		core = io()
+	case "console": // console encoder (its context encoder is shared by every entry of a derived logger)
+		core = zapcore.NewCore(zapcore.NewConsoleEncoder(zap.NewDevelopmentEncoderConfig()), zapcore.Lock(newSink()), e.AL)
+	case "combine1": // a single destination behind CombineWriteSyncers: documented to be locked like several
+		core = zapcore.NewCore(enc(), zap.CombineWriteSyncers(newSink()), e.AL)
 	case "tee":
 		var oc zapcore.Core
 		oc, ologs = observer.New(e.AL)
@@ -99,6 +104,7 @@ func build(family string, warm int) *env {
 	e.H3 = e.H.WithGroup("a").WithGroup("b").WithGroup("c")
 	e.LWS = zapcore.Lock(newSink())
 	e.G = e.L.Named("g")
+	e.C = e.L.With(zap.Namespace("ctx"), zap.Int("c", 1))
 	if warm >= 2 {
 		rarePaths(e)
 	}
@@ -199,6 +205,8 @@ var ops = map[string]opFn{
 		r.AddAttrs(slog.Int("x", t))
 		_ = e.H3.WithGroup("t"+strconv.Itoa(t)).Handle(context.Background(), r)
 	},
+	"ctxnof":  func(e *env, t int) { e.C.Info("no fields through the shared context logger") },
+	"ctxf":    func(e *env, t int) { e.C.Info("c", zap.Int("t", t)) },
 	"stack":   func(e *env, t int) { e.L.Error("e", zap.Int("t", t)) },
 	"errs":    func(e *env, t int) { e.L.Info("e", zap.Error(multierr.Combine(errors.New("a"), errors.New("b")))) },
 	"reflect": func(e *env, t int) { e.L.Info("r", zap.Reflect("v", map[string]int{"a": t})) },
@@ -217,8 +225,8 @@ var ops = map[string]opFn{
 	"obsfilt": func(e *env, t int) { _ = e.obs.FilterMessage("m").Len() },
 }
 
-var commonOps = []string{"info", "check", "with", "withlazy", "named", "withopt", "level", "sync", "lazyinfo", "lazywith", "lazydbg", "sinfow", "swith", "sinfof", "setlevel", "getlevel", "replaceg", "globall", "globals", "slog", "slogattr", "sloggrp", "sloggrp3", "stack", "errs", "reflect", "panic", "fatal", "dpanic", "lwrite", "lsync"}
-var reducedOps = []string{"info", "with", "lazyinfo", "sinfow", "setlevel", "replaceg", "globall", "slogattr", "panic", "sync"}
+var commonOps = []string{"info", "check", "with", "withlazy", "named", "withopt", "level", "sync", "lazyinfo", "lazywith", "lazydbg", "sinfow", "swith", "sinfof", "setlevel", "getlevel", "replaceg", "globall", "globals", "slog", "slogattr", "sloggrp", "sloggrp3", "ctxnof", "ctxf", "stack", "errs", "reflect", "panic", "fatal", "dpanic", "lwrite", "lsync"}
+var reducedOps = []string{"info", "ctxnof", "with", "lazyinfo", "sinfow", "setlevel", "replaceg", "globall", "slogattr", "panic", "sync"}
 
 func opsFor(family string) []string {
 	o := append([]string{}, commonOps...)
